@@ -36,13 +36,26 @@ for d in sorted(glob.glob("/verif/seeded/C*")):
                 break
         else:
             det["caught"] = False
+            # a change that the check of its own property does not reach in the budget may be
+            # in the domain of another property as well (meta.json "also_check")
+            for other in meta.get("also_check", []):
+                env = dict(os.environ)
+                env["VERIF_EVIDENCE_DIR"] = "/verif/.build/sweep-evidence"
+                env["VERIF_BUDGET_MS"] = "60000"
+                t0 = time.time()
+                r = subprocess.run(["/verif/check", other, "quick"], capture_output=True, text=True, env=env)
+                rule = re.search(r"violated rule ([^:]+):", r.stdout)
+                det.setdefault("also", []).append({"check": other, "exit": r.returncode, "wall_s": round(time.time() - t0, 1), "rule": rule.group(1) if rule else None})
+                if r.returncode == 1:
+                    det["caught_by_other"] = other
+                    break
     finally:
         subprocess.check_call(["git", "-C", "/repo", "checkout", "--", "."])
         subprocess.call(["git", "-C", "/repo", "clean", "-fdq"])
     meta["detection"] = det
     json.dump(meta, open(os.path.join(d, "meta.json"), "w"), indent=1)
     out[mid] = det
-    print(mid, "caught" if det.get("caught") else "MISSED", det.get("rule"), [x["wall_s"] for x in det["runs"]], flush=True)
+    print(mid, "caught" if det.get("caught") else ("caught by " + det["caught_by_other"] if det.get("caught_by_other") else "MISSED"), det.get("rule"), [x["wall_s"] for x in det["runs"]], flush=True)
 sp = "/verif/sensitivity.json"
 allr = json.load(open(sp)) if os.path.exists(sp) else {}
 allr.update(out)
